@@ -23,11 +23,15 @@ import (
 	"sync"
 	"time"
 
+	cachepkg "github.com/jdillenkofer/pithos/internal/cache"
+	"github.com/jdillenkofer/pithos/internal/cache/evictionpolicy/evictnothing"
+	"github.com/jdillenkofer/pithos/internal/cache/persistor/inmemory"
 	"github.com/jdillenkofer/pithos/internal/storage"
 	"github.com/jdillenkofer/pithos/internal/storage/database"
 	repositoryFactory "github.com/jdillenkofer/pithos/internal/storage/database/repository"
 	"github.com/jdillenkofer/pithos/internal/storage/database/sqlite"
 	"github.com/jdillenkofer/pithos/internal/storage/metadatapart"
+	"github.com/jdillenkofer/pithos/internal/storage/middlewares/objectcache"
 	sqlMetadataStore "github.com/jdillenkofer/pithos/internal/storage/metadatapart/metadatastore/sql"
 	"github.com/jdillenkofer/pithos/internal/storage/metadatapart/partstore"
 	filesystemPartStore "github.com/jdillenkofer/pithos/internal/storage/metadatapart/partstore/filesystem"
@@ -109,6 +113,8 @@ func metaOpen(dir string, stack string) (*metaEnv, error) {
 		switch stack {
 		case "zstd": // compression over a seekable store: small/incompressible parts are stored raw behind a header
 			ps, err = compression.New(ps)
+		case "gzip": // gzip readers hand out their last bytes together with io.EOF
+			ps, err = compression.NewWithConfig(ps, compression.Config{Algorithm: compression.AlgorithmGzip})
 		case "tink":
 			ps, err = tink.NewWithLocalKMS("meta-harness-password", ps, nil)
 		case "zstdtink":
@@ -150,9 +156,25 @@ func metaOpen(dir string, stack string) (*metaEnv, error) {
 	if err != nil {
 		return nil, err
 	}
-	st, err := metadatapart.NewStorage(db, ms, ps)
+	var st storage.Storage
+	st, err = metadatapart.NewStorage(db, ms, ps)
 	if err != nil {
 		return nil, err
+	}
+	if stack == "ocache" { // the object cache middleware must be transparent for every history
+		pers, e1 := inmemory.New()
+		pol, e2 := evictnothing.New()
+		if e1 != nil || e2 != nil {
+			return nil, errors.Join(e1, e2)
+		}
+		gc, err := cachepkg.NewGenericCache(pers, pol)
+		if err != nil {
+			return nil, err
+		}
+		st, err = objectcache.NewStorageMiddleware(st, gc, objectcache.Options{MaxObjectSizeBytes: 1 << 20})
+		if err != nil {
+			return nil, err
+		}
 	}
 	ctx := context.Background()
 	if err := st.Start(ctx); err != nil {
